@@ -15,6 +15,12 @@ def run():
                  % (13 ** (5 if ck.thorough else 4), 5 if ck.thorough else 4))
     if not r['ok']:
         ck.violation('model:RxBranch', 'termination model violated', vlib.tlc_error_summary(r['out'], 50))
+    # the same lemma on the real window arithmetic, for every register value and immediate, proved by TLAPS for each condition position
+    pr = vlib.tlaps('BranchLemma', timeout=1500)
+    ck.cov['parts']['BranchLemma(TLAPS)'] = {'what': 'for b = 8..23, all r and cimm below 2^(b+8) with bit b set and bit b-1 cleared: never three consecutive takes',
+                                             'obligations_proved': pr['proved'], 'ok': pr['ok'], 'wall_s': round(pr['wall'], 1)}
+    if not pr['ok']:
+        vlib.log('[c07] WARNING: TLAPS did not re-prove BranchLemma (rc=%s): %s' % (pr['rc'], pr['out'][-300:]))
     recs = c04.record_vm(ck, wd, ['branch'])
     lines = recs['branch']
     c04.validate_vm(ck, 'c07', lines, 'concretised programs (writers, swaps, non-writers, CBRANCH engineered for 0/1/2 consecutive takes) run by both engines; executed-instruction count of the interpreter equals the count of the TLA+ VM and is <= 3 x program size per iteration')
